@@ -792,12 +792,18 @@ def of_repo(p, mode='naive'):
     raise TypeError(cn)
 
 
+def fresh_name(n):
+    """an equal but NOT identical str object (names read from files or built at run time are not interned): comparing symbol names
+    by identity instead of equality must not go unnoticed.  (One-character strings are singletons in CPython; longer ones are not.)"""
+    return ''.join(list(n)) if isinstance(n, str) and len(n) > 1 else n
+
+
 def to_repo(t, P):
     """O1 term -> notation-free repo pattern.  P: the repo's pattern module (passed in; not imported here)."""
     k = t[0]
     if k == 'ev': return P.EVar(t[1])
     if k == 'sv': return P.SVar(t[1])
-    if k == 'sy': return P.Symbol(t[1])
+    if k == 'sy': return P.Symbol(fresh_name(t[1]))
     if k == 'im': return P.Implies(to_repo(t[1], P), to_repo(t[2], P))
     if k == 'ap': return P.App(to_repo(t[1], P), to_repo(t[2], P))
     if k == 'ex': return P.Exists(t[1], to_repo(t[2], P))
